@@ -162,6 +162,15 @@ static void compare(const dom_t &D, refval R, const std::vector<var_t> &V, const
       if (CR > 0) sx::assume(q >= term(-3 * CR) && q <= term(3 * CR));
       bool e = B(D.entails(lcst_t(lexp_t(V[i]) - lexp_t(V[j]) - lexp_t(q.num()), lcst_t::INEQUALITY)));
       ent r = ref_diff(R, i, j);
+#if DOM == 1
+      // intervals: only what the bounds imply is in the language (after a join the reference DBM also keeps
+      // differences that both operands imply, which no interval value can express)
+      {
+        ent ui = ref_ub(R, i), lj = ref_lb(R, j);
+        r.fin = ui.fin && lj.fin;
+        if (r.fin) r.v = ui.v - lj.v;
+      }
+#endif
       form refent = r.fin ? (r.v <= q) : form(false);
       if (relaxed) check(sx::implies(!R.bot, sx::implies(form(e), refent)), (w + ": entails(x_i - x_j <= q) only when implied").c_str());
       else check(sx::implies(!R.bot, sx::iff(form(e), refent)), (w + ": entails(x_i - x_j <= q) exactly when implied").c_str());
